@@ -337,17 +337,34 @@ static long minterm2rank(const For &F, const minterm &m)
     return r;
 }
 
+// exact 64-bit fingerprint of a function table (FNV-1a over the exact values,
+// including those too wide or too fine for the integer encoding of the trace)
+static unsigned long last_table_hash = 0;
+
 static void table_of(const For &F, const dd_edge &e, std::vector<long> &fn)
 {
     const long N = npoints(F);
     fn.resize(size_t(N));
     minterm m(F.f);
+    unsigned long h = 1469598103934665603UL;
     for (long r=0; r<N; r++) {
         rank2minterm(F, r, m);
         rangeval v;
         e.evaluate(m, v);
         fn[size_t(r)] = rv2long(v);
+        unsigned long bits;
+        if (v.isPlusInfinity()) bits = 0x7ff1000000000001UL;
+        else if (v.isBoolean()) bits = bool(v) ? 1 : 0;
+        else if (v.isInteger()) bits = (unsigned long) long(v);
+        else { double d = double(v); if (d == 0.0) d = 0.0; memcpy(&bits, &d, 8); }
+        for (int b=0; b<8; b++) { h ^= (bits >> (8*b)) & 0xff; h *= 1099511628211UL; }
     }
+    last_table_hash = h;
+}
+
+static std::string hash_words(unsigned long h)
+{
+    return "[" + std::to_string(h & 0xffffffUL) + "," + std::to_string((h>>24) & 0xffffffUL) + "," + std::to_string(h>>48) + "]";
 }
 
 static void ev2words(const edge_value &ev, std::vector<long> &w)
@@ -393,6 +410,7 @@ static std::string describe(int slot, const dd_edge &e, bool counts)
             std::vector<long> fn;
             table_of(F, e, fn);
             s += ",\"fn\":" + jarr(fn);
+            s += ",\"fh\":" + hash_words(last_table_hash);
             if (counts) {
                 s += ",\"nc\":" + std::to_string(e.getNodeCount());
                 s += ",\"ec\":" + std::to_string(e.getEdgeCount(false));
@@ -661,6 +679,7 @@ static void do_snap(int fi)
                 std::vector<long> fn;
                 table_of(F, e, fn);
                 eds += ",\"fn\":" + jarr(fn);
+                eds += ",\"fh\":" + hash_words(last_table_hash);
                 eds += ",\"nc\":" + std::to_string(e.getNodeCount());
                 eds += ",\"ec\":" + std::to_string(e.getEdgeCount(false));
                 eds += ",\"ecz\":" + std::to_string(e.getEdgeCount(true));
